@@ -82,6 +82,23 @@ impl Prop for C08 {
                 out.push_str(rest);
                 html = out;
             }
+            // link targets of unusual classes: empty, blank, padded with blanks, valueless
+            if r.p(12) {
+                let mut out = String::new();
+                let mut rest = html.as_str();
+                while let Some(i) = rest.find("href=\"/") {
+                    let j = i + rest[i + 7..].find('"').map(|x| x + 8).unwrap_or(rest.len() - i);
+                    if r.p(40) {
+                        out.push_str(&rest[..i]);
+                        out.push_str(*r.pick(&[&"href=\"\"", &"href=\" \"", &"href=\"\t\"", &"href", &"href=\" /5/ \"", &"href=\"  \""]));
+                    } else {
+                        out.push_str(&rest[..j]);
+                    }
+                    rest = &rest[j..];
+                }
+                out.push_str(rest);
+                html = out;
+            }
             for _ in 0..(if tier == Tier::Quick { 3 } else { 6 }) {
                 let deco = match r.b(3) {
                     0 => Deco::Plain,
